@@ -243,6 +243,7 @@ def _dmrg_sweep_2site_(env, opts_eigs=None, opts_svd=None, Schmidt=None, precomp
             nC = psi.A[psi.pC].norm()
             if nC:  # keep the state normalized when truncation discards weight
                 psi.A[psi.pC] = psi.A[psi.pC] / nC
+            psi.factor = 1  # as orthogonalize_site_(normalize=True) does in the 1-site sweep
             if Schmidt is not None and to == 'first':
                 Schmidt[psi.pC] = psi[psi.pC]
             psi.absorb_central_(to=to)
